@@ -18,12 +18,17 @@ def opt_str(rng, allow_empty=True):
     return rng.choice([None, "x", "some-id-%d" % rng.randrange(99), "üñí"] + ([""] if allow_empty else []))
 
 
+def _long_trace(rng):
+    n = rng.choice([129, 200, 400, 1000])
+    return ["  File \"f.py\", line %d, in frame_%d" % (i, i) for i in range(n)]
+
+
 def gen_error(rng):
     from aws_durable_execution_sdk_python.lambda_service import ErrorObject
 
     while True:
         e = ErrorObject(message=rng.choice([None, "msg", ""]), type=rng.choice([None, "ValueError", ""]), data=rng.choice([None, "data"]),
-                        stack_trace=rng.choice([None, [], ["f1", "f2"]]))
+                        stack_trace=rng.choice([None, [], ["f1", "f2"], ["f1", "f2"]]) if rng.random() > 0.03 else _long_trace(rng))
         if any(x is not None for x in (e.message, e.type, e.data, e.stack_trace)):
             return e
 
@@ -192,6 +197,16 @@ def check_instance(kind, x, viol, counts, epoch0=False):
         if norm(z, ms=True) != norm(x, ms=True):
             d = diff(norm(x, True), norm(z, True))
             viol.append(V(PROP, "C20/operation-json-roundtrip-lossy/%s%s" % (d, _ts_tag(d, epoch0, norm(x, True), norm(z, True))), "%r -> %r" % (x, z)))
+        # encoding is repeatable on the SAME object, in any order of the two forms (an encoder must not leave anything behind on it)
+        try:
+            y2 = type(x).from_dict(x.to_dict())
+            j2 = x.to_json_dict()
+            if norm(y2) != norm(x):
+                viol.append(V(PROP, "C20/encoding-again-on-the-same-object-differs/dict-form-after-json-form/%s" % diff(norm(x), norm(y2)), "%r -> %r" % (x, y2)))
+            elif json.dumps(j2, sort_keys=True) != frozen:
+                viol.append(V(PROP, "C20/encoding-again-on-the-same-object-differs/json-form", "%r" % (x,)))
+        except Exception as e:  # noqa: BLE001
+            viol.append(V(PROP, "C20/encoding-again-on-the-same-object-fails/%s" % type(e).__name__, "%r: %s" % (x, e)))
         return
     if kind == "input":
         y = type(x).from_dict(x.to_dict())
@@ -363,7 +378,7 @@ def run_concurrent(case):
 
 RULE = ("seeded generator of well-typed instances of OperationUpdate, Operation, DurableExecutionInvocationInput and "
         "DurableExecutionInvocationOutput over every operation type/status/sub-type/action, absent/empty/non-empty optionals, nested error "
-        "objects (at least one field set), timestamps 2000-2100 with sub-millisecond parts (epoch-0 in a separate slice). Oracle: "
+        "objects (at least one field set; stack traces of 0-1000 frames), timestamps 2000-2100 with sub-millisecond parts (epoch-0 in a separate slice). Oracle: "
         "N(from_dict(to_dict(x))) == N(x) and N(from_json_dict(to_json_dict(x))) == N(x) where N applies exactly the permitted losses "
         "(ms truncation on the JSON path; '' == absent for optional strings; an entirely empty details object == absent), to_json_dict is "
         "JSON-serializable, and every OperationUpdate.create_* factory's wire dict contains every identifier field and option passed. "
